@@ -59,7 +59,7 @@ def run(ctx, k1_clean: bool):
             else:
                 run.dist("real_server", "handshake-ok-unadapted")
         info["adapter_extra_headers_to_additional_headers"] = adapter
-        info["handshake_unchanged_code"] = "fails (F13)" if adapter else "succeeds"
+        info["handshake_unchanged_code"] = "fails (F13 is back)" if adapter else "succeeds"
         # ---- (b) sample of sequences
         n = len(LETTERS)
         seqs = [()] + [p for L in (1, 2) for p in itertools.product(range(n), repeat=L)]
